@@ -731,6 +731,7 @@ func checkC17(c *Ctx) {
 	// the two shapes for which the decoder is known not to return what was encoded (known findings F34, F35)
 	addFixed("synInlineMulti", synInlineMulti{[]synPairU{{1, 2}, {3, 4}}})
 	addFixed("synTagged", synTagged{[]synBytesElem{{[]byte{}}, {[]byte("a")}}})
+	addFixed("synInlineOfList", synInlineOfList{[]synHasList{{[]synOne{{1}, {2}}}, {[]synOne{{3}}}}})
 
 	perType := c.Pick(25, 300)
 	for ui, u := range universe {
@@ -825,7 +826,7 @@ func checkC17(c *Ctx) {
 				if out != "ok "+want {
 					res = "does-not-round-trip"
 				}
-				if res != "round-trips" && (why == "inline-multi-field" || why == "empty-list-element") {
+				if res != "round-trips" && (why == "inline-multi-field" || why == "empty-list-element" || why == "inline-of-list") {
 					// supported field kinds (an inline list, a list element) for which the round trip fails: violations of
 					// the property, recorded as known findings F34 / F35 (the reader's tag → values map cannot express them)
 					c.Violate("value changed by tlv8 Marshal/Unmarshal round trip ("+why+")", cs.id, lines[i], "ok "+want, out)
